@@ -1,39 +1,119 @@
 // C08 chain construction: synthetic but fully valid blocks (juno computes hashes, commitments, roots)
-// with distinguishable Cairo-0 classes, reverted receipts and events; pushed into follower nodes of
-// both state backends the way sync does.
+// with distinguishable Cairo-0 and Sierra classes, every transaction kind the RPC schema knows, reverted
+// receipts, events and L2->L1 messages; pushed into follower nodes of both state backends the way sync does.
 package main
 
 import (
 	"fmt"
+	"math/big"
 	"sort"
 
 	"github.com/NethermindEth/juno/blockchain/networks"
 	"github.com/NethermindEth/juno/core"
 	"github.com/NethermindEth/juno/core/felt"
+	"github.com/NethermindEth/juno/l1/eth"
 	"verifharness/chain"
 )
 
+// TxSpec: Kind is one of txKinds; the content of the transaction is derived from (block number, index, salt).
 type TxSpec struct {
-	Reverted bool `json:"reverted"`
-	Events   int  `json:"events"`
+	Kind     string `json:"kind,omitempty"` // default invoke3
+	Reverted bool   `json:"reverted"`
+	Events   int    `json:"events"`
+	Msgs     int    `json:"msgs,omitempty"`
+}
+
+var txKinds = []string{"invoke3", "invoke1", "invoke0", "declare3", "declare2", "declare1", "declare0",
+	"deploy_account3", "deploy_account1", "deploy", "l1_handler"}
+
+// CDecl: a Cairo-0 class delivered with a block: the class hash is Hash (Cairo-0 hashes are not verified by
+// juno), the definition is number Def (program "p<Def>", entry points derived from Def).
+type CDecl struct {
+	Hash uint64 `json:"hash"`
+	Def  uint64 `json:"def"`
+}
+
+// class references used by deployments / replacements: below sierraRef a Cairo-0 hash, from sierraRef on the
+// Sierra class number ref-sierraRef (its hash is juno's SierraClass.Hash()).
+const sierraRef = 5000
+
+func classHashOf(ref uint64) *felt.Felt {
+	if ref >= sierraRef {
+		return sierraHash(ref - sierraRef)
+	}
+	return F(ref)
 }
 
 // BSpec describes one block in small integers.
 type BSpec struct {
-	Salt    uint64                       `json:"salt"`
-	Declare []uint64                     `json:"declare,omitempty"` // cairo0 class ids: hash = id, program = "p<id>"
-	Deploy  map[uint64]uint64            `json:"deploy,omitempty"`  // address -> class id
-	Replace map[uint64]uint64            `json:"replace,omitempty"` // address -> class id
-	Nonces  map[uint64]uint64            `json:"nonces,omitempty"`
-	Storage map[uint64]map[uint64]uint64 `json:"storage,omitempty"`
-	Txs     []TxSpec                     `json:"txs,omitempty"`
+	Salt     uint64                       `json:"salt"`
+	Declare  []CDecl                      `json:"declare,omitempty"`  // deprecated_declared_classes
+	DeclareS []uint64                     `json:"declare_s,omitempty"` // declared_classes: Sierra class numbers
+	Extra    []CDecl                      `json:"extra,omitempty"`    // delivered for deployments, not declared
+	Deploy   map[uint64]uint64            `json:"deploy,omitempty"`   // address -> class ref
+	Replace  map[uint64]uint64            `json:"replace,omitempty"`  // address -> class ref
+	Nonces   map[uint64]uint64            `json:"nonces,omitempty"`
+	Storage  map[uint64]map[uint64]uint64 `json:"storage,omitempty"`
+	Txs      []TxSpec                     `json:"txs,omitempty"`
 }
 
 func F(x uint64) *felt.Felt { return chain.F(x) }
 
-func classDef(id uint64) core.ClassDefinition {
-	return &core.DeprecatedCairoClass{Abi: []byte("[]"), Program: fmt.Sprintf("p%d", id)}
+// Cairo-0 definition number def.
+func classDef0(def uint64) *core.DeprecatedCairoClass {
+	c := &core.DeprecatedCairoClass{
+		Abi:     []byte(fmt.Sprintf(`[{"name":"f%d","type":"function","inputs":[],"outputs":[]}]`, def)),
+		Program: fmt.Sprintf("p%d", def),
+		Externals: []core.DeprecatedEntryPoint{
+			{Selector: F(0x1000 + def), Offset: F(def)},
+			{Selector: F(0x2000 + def), Offset: F(def + 17)},
+		},
+		// never nil: the feeder adapters (adapters/sn2core) always make these slices, and rpc/v8 relies on it
+		// (a nil list would be rendered as null by v0.8 and as [] by v0.9 / v0.10)
+		L1Handlers:   []core.DeprecatedEntryPoint{},
+		Constructors: []core.DeprecatedEntryPoint{},
+	}
+	if def%2 == 1 {
+		c.Constructors = []core.DeprecatedEntryPoint{{Selector: F(0x3000 + def), Offset: F(3)}}
+		c.L1Handlers = []core.DeprecatedEntryPoint{{Selector: F(0x4000 + def), Offset: F(0)}}
+	}
+	return c
 }
+
+// Sierra class number id; the definition id the model carries for it is sierraDefID(id).
+func sierraClass(id uint64) *core.SierraClass {
+	c := &core.SierraClass{
+		Abi: fmt.Sprintf(`[{"type":"function","name":"s%d"}]`, id), AbiHash: F(7000 + id), ProgramHash: F(8000 + id),
+		SemanticVersion: "0.1.0",
+		Program:         []felt.Felt{*F(id), *F(id + 1), *F(0xabc)},
+		Compiled:        &core.CasmClass{Bytecode: []felt.Felt{*F(id)}, CompilerVersion: "2.0.0", Prime: big.NewInt(0)},
+	}
+	c.EntryPoints.Constructor, c.EntryPoints.L1Handler = []core.SierraEntryPoint{}, []core.SierraEntryPoint{}
+	c.EntryPoints.External = []core.SierraEntryPoint{{Index: id, Selector: F(0x5000 + id)}, {Index: 0, Selector: F(0x5100 + id)}}
+	if id%2 == 0 {
+		c.EntryPoints.Constructor = []core.SierraEntryPoint{{Index: 2, Selector: F(0x5200 + id)}}
+	} else {
+		c.EntryPoints.L1Handler = []core.SierraEntryPoint{{Index: 3, Selector: F(0x5300 + id)}}
+	}
+	return c
+}
+
+var sierraHashes = map[uint64]*felt.Felt{}
+
+func sierraHash(id uint64) *felt.Felt {
+	if h, ok := sierraHashes[id]; ok {
+		return h
+	}
+	h, err := sierraClass(id).Hash()
+	if err != nil {
+		panic(err)
+	}
+	sierraHashes[id] = &h
+	return &h
+}
+
+func sierraDefID(id uint64) uint64  { return 0x10000 + id }
+func sierraCasmHash(id uint64) uint64 { return 0xcc00 + id }
 
 func (s *BSpec) diff() *core.StateDiff {
 	d := &core.StateDiff{
@@ -44,10 +124,10 @@ func (s *BSpec) diff() *core.StateDiff {
 		ReplacedClasses:   map[felt.Felt]*felt.Felt{},
 	}
 	for a, c := range s.Deploy {
-		d.DeployedContracts[*F(a)] = F(c)
+		d.DeployedContracts[*F(a)] = classHashOf(c)
 	}
 	for a, c := range s.Replace {
-		d.ReplacedClasses[*F(a)] = F(c)
+		d.ReplacedClasses[*F(a)] = classHashOf(c)
 	}
 	for a, n := range s.Nonces {
 		d.Nonces[*F(a)] = F(n)
@@ -59,43 +139,141 @@ func (s *BSpec) diff() *core.StateDiff {
 		}
 		d.StorageDiffs[*F(a)] = mm
 	}
-	ids := append([]uint64{}, s.Declare...)
-	sort.Slice(ids, func(i, j int) bool { return ids[i] < ids[j] })
+	ids := append([]CDecl{}, s.Declare...)
+	sort.Slice(ids, func(i, j int) bool { return ids[i].Hash < ids[j].Hash })
 	for _, c := range ids {
-		d.DeclaredV0Classes = append(d.DeclaredV0Classes, F(c))
+		d.DeclaredV0Classes = append(d.DeclaredV0Classes, F(c.Hash))
+	}
+	for _, id := range s.DeclareS {
+		d.DeclaredV1Classes[*sierraHash(id)] = F(sierraCasmHash(id))
 	}
 	return d
+}
+
+// classes is the newClasses argument of Store: the definitions delivered with the block.
+func (s *BSpec) classes() map[felt.Felt]core.ClassDefinition {
+	m := map[felt.Felt]core.ClassDefinition{}
+	for _, c := range s.Declare {
+		m[*F(c.Hash)] = classDef0(c.Def)
+	}
+	for _, c := range s.Extra {
+		m[*F(c.Hash)] = classDef0(c.Def)
+	}
+	for _, id := range s.DeclareS {
+		m[*sierraHash(id)] = sierraClass(id)
+	}
+	return m
+}
+
+func rb(a1, p1, a2, p2, a3, p3 uint64) map[core.Resource]core.ResourceBounds {
+	return map[core.Resource]core.ResourceBounds{
+		core.ResourceL1Gas:     {MaxAmount: a1, MaxPricePerUnit: F(p1)},
+		core.ResourceL2Gas:     {MaxAmount: a2, MaxPricePerUnit: F(p2)},
+		core.ResourceL1DataGas: {MaxAmount: a3, MaxPricePerUnit: F(p3)},
+	}
+}
+
+func ver(v uint64) *core.TransactionVersion { return new(core.TransactionVersion).SetUint64(v) }
+
+// mkTx builds transaction i of block number `number`; u makes it unique across blocks and branches.
+func mkTx(kind string, number uint64, i int, salt uint64) core.Transaction {
+	u := number*100000 + uint64(i)*1000 + salt%1000
+	sig := []felt.Felt{*F(1 + u%7), *F(2)}
+	var tx core.Transaction
+	switch kind {
+	case "", "invoke3":
+		t := &core.InvokeTransaction{Version: ver(3), SenderAddress: F(77), Nonce: F(u), CallData: []felt.Felt{*F(uint64(i)), *F(u)},
+			ResourceBounds: rb(1, 1+u%5, 2+u%3, 1, 3, 7), TransactionSignature: sig, Tip: u % 4,
+			PaymasterData: []felt.Felt{}, AccountDeploymentData: []felt.Felt{}}
+		if u%3 == 0 {
+			t.PaymasterData = []felt.Felt{*F(9)}
+			t.AccountDeploymentData = []felt.Felt{*F(8), *F(7)}
+			t.NonceDAMode, t.FeeDAMode = core.DAModeL2, core.DAModeL1
+		}
+		tx = t
+	case "invoke1":
+		tx = &core.InvokeTransaction{Version: ver(1), SenderAddress: F(78), Nonce: F(u), MaxFee: F(1000 + u),
+			CallData: []felt.Felt{*F(uint64(i)), *F(5)}, TransactionSignature: sig}
+	case "invoke0":
+		tx = &core.InvokeTransaction{Version: ver(0), ContractAddress: F(79), EntryPointSelector: F(0x77 + u), MaxFee: F(1000 + u),
+			CallData: []felt.Felt{*F(uint64(i))}, TransactionSignature: sig}
+	case "declare3":
+		tx = &core.DeclareTransaction{Version: ver(3), SenderAddress: F(80), Nonce: F(u), ClassHash: F(0xc1a55 + u),
+			CompiledClassHash: F(0xca5 + u), ResourceBounds: rb(4, 1, 5, 2, 6, 3), Tip: 1, TransactionSignature: sig,
+			PaymasterData: []felt.Felt{*F(u)}, AccountDeploymentData: []felt.Felt{}, FeeDAMode: core.DAModeL2}
+	case "declare2":
+		tx = &core.DeclareTransaction{Version: ver(2), SenderAddress: F(81), Nonce: F(u), ClassHash: F(0xc1a55 + u),
+			CompiledClassHash: F(0xca5 + u), MaxFee: F(2000 + u), TransactionSignature: sig}
+	case "declare1":
+		tx = &core.DeclareTransaction{Version: ver(1), SenderAddress: F(82), Nonce: F(u), ClassHash: F(0xc1a55 + u),
+			MaxFee: F(2000 + u), TransactionSignature: sig}
+	case "declare0":
+		tx = &core.DeclareTransaction{Version: ver(0), SenderAddress: F(1), Nonce: F(0), ClassHash: F(0xc1a55 + u),
+			MaxFee: F(0), TransactionSignature: []felt.Felt{}}
+	case "deploy_account3":
+		t := &core.DeployAccountTransaction{ResourceBounds: rb(1, 1, 1, 1, 1, 1), Tip: 2, TransactionSignature: sig, Nonce: F(0),
+			PaymasterData: []felt.Felt{}, NonceDAMode: core.DAModeL1, FeeDAMode: core.DAModeL1}
+		t.Version, t.ContractAddressSalt, t.ClassHash = ver(3), F(u), F(0xacc0)
+		t.ConstructorCallData = []felt.Felt{*F(u), *F(1)}
+		t.ContractAddress = F(0xadd0000 + u)
+		tx = t
+	case "deploy_account1":
+		t := &core.DeployAccountTransaction{MaxFee: F(3000 + u), TransactionSignature: sig, Nonce: F(0)}
+		t.Version, t.ContractAddressSalt, t.ClassHash = ver(1), F(u), F(0xacc1)
+		t.ConstructorCallData = []felt.Felt{}
+		t.ContractAddress = F(0xadd1000 + u)
+		tx = t
+	case "deploy":
+		tx = &core.DeployTransaction{Version: ver(0), ContractAddressSalt: F(u), ClassHash: F(0xdeb), ContractAddress: F(0xadd2000 + u),
+			ConstructorCallData: []felt.Felt{*F(4)}, TransactionHash: F(0xdeb10000000 + u)}
+	case "l1_handler":
+		tx = &core.L1HandlerTransaction{Version: ver(0), ContractAddress: F(0x11), EntryPointSelector: F(0x12 + u), Nonce: F(u),
+			CallData: []felt.Felt{*F(0xe7700 + u%9), *F(u), *F(3)}}
+	default:
+		panic("tx kind " + kind)
+	}
+	hv, err := core.TransactionHash(tx, &networks.Sepolia)
+	if err != nil {
+		panic(err)
+	}
+	switch t := tx.(type) {
+	case *core.InvokeTransaction:
+		t.TransactionHash = &hv
+	case *core.DeclareTransaction:
+		t.TransactionHash = &hv
+	case *core.DeployAccountTransaction:
+		t.TransactionHash = &hv
+	case *core.L1HandlerTransaction:
+		t.TransactionHash = &hv
+	}
+	return tx
 }
 
 func (s *BSpec) txs(number uint64) ([]core.Transaction, []*core.TransactionReceipt) {
 	txs := make([]core.Transaction, 0, len(s.Txs))
 	rcs := make([]*core.TransactionReceipt, 0, len(s.Txs))
 	for i, t := range s.Txs {
-		tx := &core.InvokeTransaction{
-			Version:       new(core.TransactionVersion).SetUint64(3),
-			SenderAddress: F(77),
-			Nonce:         F(number*100000 + uint64(i)*1000 + s.Salt%1000),
-			CallData:      []felt.Felt{*F(uint64(i))},
-			ResourceBounds: map[core.Resource]core.ResourceBounds{
-				core.ResourceL1Gas:     {MaxAmount: 1, MaxPricePerUnit: F(1)},
-				core.ResourceL2Gas:     {MaxAmount: 1, MaxPricePerUnit: F(1)},
-				core.ResourceL1DataGas: {MaxAmount: 1, MaxPricePerUnit: F(1)},
-			},
-			TransactionSignature: []felt.Felt{*F(1), *F(2)},
+		tx := mkTx(t.Kind, number, i, s.Salt)
+		unit := core.WEI
+		if tx.TxVersion().Is(3) {
+			unit = core.STRK
 		}
-		hv, err := core.TransactionHash(tx, &networks.Sepolia)
-		if err != nil {
-			panic(err)
-		}
-		tx.TransactionHash = &hv
-		rc := &core.TransactionReceipt{TransactionHash: &hv, Fee: F(uint64(i) + 1), FeeUnit: core.STRK,
-			ExecutionResources: &core.ExecutionResources{}}
+		rc := &core.TransactionReceipt{TransactionHash: tx.Hash(), Fee: F(uint64(i) + 1 + s.Salt%13), FeeUnit: unit,
+			ExecutionResources: &core.ExecutionResources{Steps: 10 + uint64(i), MemoryHoles: 1,
+				BuiltinInstanceCounter: core.BuiltinInstanceCounter{Pedersen: 2, RangeCheck: 3},
+				DataAvailability:       &core.DataAvailability{L1Gas: 1, L1DataGas: 2},
+				TotalGasConsumed:       &core.GasConsumed{L1Gas: 11 + uint64(i), L1DataGas: 22 + number, L2Gas: 33 + s.Salt%5}}}
 		if t.Reverted {
 			rc.Reverted = true
 			rc.RevertReason = fmt.Sprintf("reverted-%d-%d", number, i)
 		}
 		for e := 0; e < t.Events; e++ {
-			rc.Events = append(rc.Events, &core.Event{From: F(500 + uint64(e)), Keys: []felt.Felt{*F(uint64(e))}, Data: []felt.Felt{*F(number)}})
+			rc.Events = append(rc.Events, &core.Event{From: F(500 + uint64(e)), Keys: []felt.Felt{*F(uint64(e)), *F(number)}, Data: []felt.Felt{*F(number), *F(s.Salt % 97)}})
+		}
+		for m := 0; m < t.Msgs; m++ {
+			var to eth.Address
+			to[19], to[0] = byte(m+1), 0xc6
+			rc.L2ToL1Message = append(rc.L2ToL1Message, &core.L2ToL1Message{From: F(600 + uint64(m)), To: to, Payload: []felt.Felt{*F(number), *F(uint64(m))}})
 		}
 		txs = append(txs, tx)
 		rcs = append(rcs, rc)
@@ -118,30 +296,31 @@ func finalise(n *chain.Node, spec *BSpec) (*chain.Built, error) {
 	for _, r := range rcs {
 		evCount += uint64(len(r.Events))
 	}
+	da := core.Blob
+	if spec.Salt%4 == 1 {
+		da = core.Calldata
+	}
 	block := &core.Block{
 		Header: &core.Header{
 			ParentHash:       parent,
 			Number:           number,
 			SequencerAddress: F(1000 + spec.Salt),
-			Timestamp:        1700000000 + number,
+			Timestamp:        1700000000 + number*7 + spec.Salt%5,
 			TransactionCount: uint64(len(txs)),
 			EventCount:       evCount,
 			EventsBloom:      core.EventsBloom(rcs),
-			L1GasPriceETH:    F(1),
-			L1GasPriceSTRK:   F(1),
-			L1DataGasPrice:   &core.GasPrice{PriceInFri: F(1), PriceInWei: F(1)},
-			L2GasPrice:       &core.GasPrice{PriceInFri: F(1), PriceInWei: F(1)},
-			L1DAMode:         core.Blob,
+			L1GasPriceETH:    F(10 + spec.Salt%3),
+			L1GasPriceSTRK:   F(20 + spec.Salt%7),
+			L1DataGasPrice:   &core.GasPrice{PriceInFri: F(30 + number), PriceInWei: F(40 + spec.Salt%2)},
+			L2GasPrice:       &core.GasPrice{PriceInFri: F(50 + spec.Salt%11), PriceInWei: F(60 + number)},
+			L1DAMode:         da,
 			ProtocolVersion:  core.Ver0_14_0.String(),
 		},
 		Transactions: txs,
 		Receipts:     rcs,
 	}
 	su := &core.StateUpdate{OldRoot: oldRoot, StateDiff: spec.diff()}
-	classes := map[felt.Felt]core.ClassDefinition{}
-	for _, c := range spec.Declare {
-		classes[*F(c)] = classDef(c)
-	}
+	classes := spec.classes()
 	if err := n.BC.Finalise(block, su, classes, nil); err != nil {
 		return nil, err
 	}
